@@ -159,7 +159,7 @@ func (r *Runner) dischargeAll(tf *TF, dom Domain, rep *HarnessReport) {
 				}
 			}
 			c := &Obligation{Harness: g.first.Harness, Kind: g.first.Kind, Label: g.first.Label, Site: g.first.Site, Choices: g.first.Choices,
-				Inputs: inputs, Cond: tf.False, negCond: tf.Or(disj...), members: part}
+				Inputs: inputs, Cond: tf.False, negCond: tf.Or(disj...), members: part, First: g.first.First}
 			combined = append(combined, c)
 		}
 	}
